@@ -657,6 +657,19 @@ class ExprMixin:
         return out
 
     def call_star(self, node, st):
+        # zip(*rows): transposition of a sequence of k-tuples into a k-tuple of sequences
+        if isinstance(node.func, ast.Name) and node.func.id == "zip" and len(node.args) == 1 and not node.keywords \
+                and isinstance(node.args[0], ast.Starred):
+            out = []
+            for s, v in self.ev(node.args[0].value, st):
+                sq = self.as_seq(v, s, node)
+                if not isinstance(sq.etype, TTuple):
+                    raise Unsupported("zip(*x) over non-tuple rows", node)
+                k = len(sq.etype.elems)
+                cols = [VSeq(sq.len, (lambda i, c=c: sq.elem(i).elems[c]), sq.etype.elems[c]) for c in range(k)]
+                self.safety(s, "zip-star:nonempty", sq.len > 0, node, "zip(*[]) unpacks to nothing")
+                out.append((s, VTuple(cols)))
+            return out
         raise Unsupported("call with *args/**kwargs", node)
 
     def ev1_in(self, node, st):
